@@ -340,6 +340,7 @@ var tagRe = regexp.MustCompile(`b\d+\.c\d+:\d+|c\d+:\d+`)
 func judge(c *Case, got map[string][]realEntry) *divergence {
 	names := ctxNames(c.Script)
 	var best *divergence
+	bestScore := -1
 	for _, allowed := range c.Allowed {
 		var d *divergence
 		for _, n := range names {
@@ -375,8 +376,19 @@ func judge(c *Case, got map[string][]realEntry) *divergence {
 		if d == nil {
 			return nil
 		}
-		if best == nil {
-			best = d
+		// several models are allowed (e.g. assignment to a builtin type attribute may be per-context or be
+		// rejected): the divergence is judged against the model the real run follows longest, otherwise an
+		// operation that merely took the other allowed branch would be blamed for a later, unrelated leak
+		score := 0
+		for _, n := range names {
+			if i := firstDiff(allowed[n], got[n]); i >= 0 {
+				score += i
+			} else {
+				score += len(got[n])
+			}
+		}
+		if best == nil || score > bestScore {
+			best, bestScore = d, score
 		}
 	}
 	if best == nil {
